@@ -1060,8 +1060,16 @@ void World::send_line(const Op& op)
         std::string l = op.line;
         const char* d = getenv("VERIF_DIR");
         std::string dir = std::string(d ? d : "/verif") + "/build/run";
-        log_path = dir + "/enginelog_" + std::to_string(getpid()) + ".txt";
-        l.replace(l.find("@LOG@"), 5, log_path);
+        // fault kind F_LOGFILE: one time in five the "disk" behind the log is full (every flush of the reader's copy
+        // fails with ENOSPC), one time in five the file cannot be created at all; drawn from the run seed by a stream
+        // nothing else uses, so that the schedules of all other choices are unchanged.
+        uint64_t pick = aux_rng.below(5);
+        std::string path;
+        if (pick == 0) { path = "/dev/full"; counters["fault_logfile_disk_full"]++; }
+        else if (pick == 1) { path = dir + "/no-such-directory/enginelog.txt"; counters["fault_logfile_unopenable"]++; }
+        else { log_path = dir + "/enginelog_" + std::to_string(getpid()) + ".txt"; path = log_path; }
+        log_option_sent = true;
+        l.replace(l.find("@LOG@"), 5, path);
         inq.push_back(l);
         counters["logfile_option"]++;
     }
@@ -2304,11 +2312,8 @@ RunResult run_world(const Script& script)
 
     world.teardown_monitors();
     book_teardown(&world);
-    if (!world.log_path.empty())
-    {
-        engine::logger.close_file();
-        unlink(world.log_path.c_str());
-    }
+    if (world.log_option_sent) engine::logger.close_file();
+    if (!world.log_path.empty()) unlink(world.log_path.c_str());
     delete world.uci;
     world.uci = nullptr;
     W = nullptr;
